@@ -2,6 +2,7 @@ package props
 
 import (
 	"fmt"
+	"go/constant"
 	"go/token"
 	"go/types"
 	"sort"
@@ -632,4 +633,80 @@ func rdpDistanceName(p *core.Program) string {
 		return f.Name()
 	}
 	return "distanceFromSegmentSquared"
+}
+
+// floatConst: v is a numeric constant; its value as a float64.
+func floatConst(v ssa.Value) (float64, bool) {
+	c, ok := eng.StripConv(v).(*ssa.Const)
+	if !ok || c.Value == nil {
+		return 0, false
+	}
+	switch c.Value.Kind() {
+	case constant.Int, constant.Float:
+		f, _ := constant.Float64Val(constant.ToFloat(c.Value))
+		return f, true
+	}
+	return 0, false
+}
+
+// mustEdgesTo lists the CFG edges (block index, successor index) of If blocks that every path from the
+// function entry to block b takes.
+func mustEdgesTo(fn *ssa.Function, b *ssa.BasicBlock) [][2]int {
+	var out [][2]int
+	for _, d := range fn.Blocks {
+		if eng.BlockIf(d) == nil {
+			continue
+		}
+		for i := range d.Succs {
+			if !eng.Reachable(fn.Blocks[0], eng.EdgeSet{[2]int{d.Index, i}: true})[b] {
+				out = append(out, [2]int{d.Index, i})
+			}
+		}
+	}
+	return out
+}
+
+// deadAppends lists the append calls of fn whose result is never read: the appended slice only flows (through
+// phis) into further appends onto itself. `for _, x := range work { work = append(work, more...) }` is the typical
+// source - the range expression is evaluated once, so what is appended inside the loop is never visited.
+func deadAppends(fn *ssa.Function) []*ssa.Call {
+	var out []*ssa.Call
+	for _, c := range eng.Calls(fn) {
+		call, ok := c.(*ssa.Call)
+		if !ok || eng.BuiltinName(call) != "append" {
+			continue
+		}
+		set := map[ssa.Value]bool{call: true}
+		work := []ssa.Value{call}
+		dead := true
+		for len(work) > 0 && dead {
+			v := work[len(work)-1]
+			work = work[:len(work)-1]
+			for _, rf := range eng.Referrers(v) {
+				switch x := rf.(type) {
+				case *ssa.DebugRef:
+				case *ssa.Phi:
+					if !set[x] {
+						set[x] = true
+						work = append(work, x)
+					}
+				case *ssa.Call:
+					if eng.BuiltinName(x) == "append" && len(x.Call.Args) > 0 && x.Call.Args[0] == v && (len(x.Call.Args) < 2 || x.Call.Args[1] != v) {
+						if !set[x] {
+							set[x] = true
+							work = append(work, x)
+						}
+					} else {
+						dead = false
+					}
+				default:
+					dead = false
+				}
+			}
+		}
+		if dead {
+			out = append(out, call)
+		}
+	}
+	return out
 }
